@@ -219,6 +219,8 @@ func runHeader(c headerCase) harness.Result {
 	accepted := 0
 	var heldErr *packet.ErrorParseTCP
 	var heldEnc, heldFrame []byte
+	var heldCls *packet.ErrorParseTCP
+	var heldClsEnc, heldClsHdr []byte
 	for fc := 0; fc < 256; fc++ {
 		v := harness.SplitMix64(&s)
 		hdr[0], hdr[1], hdr[6], hdr[7] = byte(v), byte(v>>8), byte(v>>16), byte(fc)
@@ -247,6 +249,12 @@ func runHeader(c headerCase) harness.Result {
 				if got := pe.Bytes(); string(got) != string(want) {
 					return harness.Fail("header %x: unsupported function %d: exception encodes to %x, want %x", hdr, fc, got, want)
 				}
+				// the classification kept from an earlier header still carries the exception for THAT header (a caller may classify
+				// several frames - of several connections - before it sends the exceptions)
+				if heldCls != nil && string(heldCls.Bytes()) != string(heldClsEnc) {
+					return harness.Fail("the unsupported-function classification of header %x encoded to %x; after header %x was classified it encodes to %x: classifications share an error value", heldClsHdr, heldClsEnc, hdr, heldCls.Bytes())
+				}
+				heldCls, heldClsEnc, heldClsHdr = pe, want, append([]byte(nil), hdr...)
 			}
 			continue
 		}
